@@ -375,11 +375,14 @@ def compute_next_state(state: State, event: dict) -> State:
     state.context["config"] = state.rails_config
 
     # Initialize the new state
+    # The context updates that have not been emitted yet as a `ContextUpdate` event
+    # are carried over (only the updates after the last event of a batch are emitted).
     new_state = State(
         context=state.context,
         flow_states=[],
         flow_configs=state.flow_configs,
         rails_config=state.rails_config,
+        context_updates=dict(state.context_updates),
     )
 
     # The UID of the flow that will determine the next step
